@@ -383,6 +383,41 @@ func main() {
 				}
 			}
 		}
+		// memory outside the declared operand must not influence anything: an m32 form that reads 8 bytes shows here
+		if found == nil && in.Base >= 0 {
+			for t := 0; t < trials && found == nil; t++ {
+				var s, o, s2, o2 state
+				randState(&s)
+				s2 = s
+				for w := 281; w < 313; w++ {
+					var fm uint64
+					for b := 0; b < 8; b++ {
+						off := (w-281)*8 + b
+						if off < 128 || off >= 128+in.MemSize {
+							fm |= 0xff << uint(8*b)
+						}
+					}
+					s2[w] ^= (rnd() | 1) & fm
+				}
+				run(k, &in, &s, &o)
+				run(k, &in, &s2, &o2)
+				for y := 0; y < 313 && found == nil; y++ {
+					if y == 4 {
+						continue
+					}
+					d := o[y] ^ o2[y]
+					if y >= 281 {
+						d &^= s[y] ^ s2[y] // the flipped bytes themselves are carried through
+					}
+					if y == 280 {
+						d &= 0x8d5
+					}
+					if d != 0 {
+						found = &viol{k, "memreads", fmt.Sprintf("memory bytes outside the %d-byte operand influence word %d (%#x vs %#x)", in.MemSize, y, o[y], o2[y])}
+					}
+				}
+			}
+		}
 		if found != nil {
 			enc.Encode(found)
 		}
